@@ -166,7 +166,7 @@ PROPS = {
         level_text="bounded exploration through the symbolic executor: the tag lexer is stubbed so that every struct field yields an arbitrary sequence of up to T tokens of the tag alphabet; the real parseType / parseDisjunction / parseSequence / parseTerm / parseModifier / parseCapture / parseGroup / lookahead / negation / literal code, struct.go's structLexer and validate/visit run on every such token sequence and must return a node xor an error and never panic; the positive direction (documented grammars build) is asserted by every C01 run. Honest accounting: the tag alphabet is finite, so the solver only decides the feasibility of the choices; the exploration is exhaustive within the bound",
         level_note="trusted: the stub contract (text/scanner + textScannerTransform turn the rendered tag text into exactly the chosen tokens) — validated on every run because sampled paths and every counterexample are replayed natively with real struct tags lexed by the real scanner; reflect.StructOf is modelled over go/types; bounds below",
         runs=[dict(pkg=".", files=["root/zz_verif_ref.go", "root/zz_verif_parse.go", "root/zz_verif_grammars.go", "root/zz_verif_build.go"], harness="^VH_C19_", samples=12,
-                   reach={"VH_C19_Soup1": ["built", "rejected"], "VH_C19_Soup2": ["built", "rejected"]})],
+                   reach={"VH_C19_FieldTypes": ["built", "rejected"], "VH_C19_Soup1": ["built", "rejected"], "VH_C19_Soup2": ["built", "rejected"]})],
         bounds=dict(quick="one field: all sequences of 1..3 tokens over a 15-token alphabet (@ ! ~ ? * + ( ) [ ] | : known ident, unknown ident, string) x 6 field types (string, *Struct, []string, bool, map, interface); two fields: all sequences of 1..2 tokens per field over an 8-token alphabet x 3 field types",
                     thorough="one field: 1..4 tokens over the 22-token alphabet (adds { } = , char, raw string, int) x 11 field types; two fields: 1..3 tokens per field"),
         outside="tokenisation of arbitrary tag characters by text/scanner (stub); recursive struct types and reflect shapes beyond the list; tags longer than the bound",
